@@ -80,8 +80,9 @@ class RecFile:
     def closed(self):
         return self.real.closed
 
-    def mark_end(self):
-        if self.dirty:
+    def mark_end(self, force=False):
+        """force: the observer WAS called in this round (interval 1): a call that wrote nothing still counts as a call"""
+        if self.dirty or force:
             self.ops.append(["end"])
             self.dirty = False
 
@@ -99,7 +100,7 @@ class Boom(RuntimeError):
     pass
 
 
-def build(dirpath, mode, seed, kill=None, old=False, boom_at=None):
+def build(dirpath, mode, seed, kill=None, old=False, boom_at=None, drain=False):
     """GrandCanonical run writing log / trajectory / restart through instrumented handles on real files.
     old: the log and trajectory paths already hold the output of an earlier simulation ('a' mode appends to it);
     boom_at: a user-supplied log column (not the first one) raises at its boom_at-th evaluation"""
@@ -109,7 +110,8 @@ def build(dirpath, mode, seed, kill=None, old=False, boom_at=None):
     from quansino.operations.displacement import Ball
 
     rs = np.random.RandomState(3)
-    atoms = Atoms("Cu3", positions=rs.rand(3, 3) * 3 + 2, cell=[8, 8, 8], pbc=True)
+    n0 = 1 if drain else 3  # drain: a box that empties (deletions favoured) and is refilled now and then
+    atoms = Atoms(f"Cu{n0}", positions=rs.rand(n0, 3) * 3 + 2, cell=[8, 8, 8], pbc=True)
     atoms.calc = Harmonic(k=0.05, centers=atoms.positions, eps=0.01)
     files = {}
     for kind in ("log", "traj", "restart"):
@@ -118,10 +120,10 @@ def build(dirpath, mode, seed, kill=None, old=False, boom_at=None):
                 fh.write(OLD_LOG if kind == "log" else OLD_TRAJ)
         real = open(os.path.join(dirpath, f"{kind}.out"), mode + ("+" if kind == "restart" else ""))  # noqa: SIM115
         files[kind] = RecFile(real, kill_at=kill[1] if kill and kill[0] == kind else None)
-    mc = GrandCanonical(atoms, exchange_atoms=Atoms("Cu", positions=[[0, 0, 0]]), temperature=3000.0, chemical_potential=-3.7, number_of_exchange_particles=3, max_cycles=2,
+    mc = GrandCanonical(atoms, exchange_atoms=Atoms("Cu", positions=[[0, 0, 0]]), temperature=3000.0, chemical_potential=-5.2 if drain else -3.7, number_of_exchange_particles=n0, max_cycles=2,
                         seed=seed, logfile=files["log"], trajectory=files["traj"], restart_file=files["restart"], logging_interval=1, logging_mode=mode)
-    mc.add_move(ExchangeMove(np.arange(3)), name="exch")
-    mc.add_move(DisplacementMove(np.arange(3), Ball(0.3)), name="disp", probability=0.3)
+    mc.add_move(ExchangeMove(np.arange(n0)), name="exch")
+    mc.add_move(DisplacementMove(np.arange(n0), Ball(0.3)), name="disp", probability=0.3)
     if boom_at is not None:
         cnt = {"k": 0}
 
@@ -141,9 +143,13 @@ def drive(mc, files, steps):
     target = int(mc.step_count) + steps
     while True:
         try:
+            first = True
             for st in mc.irun(target - int(mc.step_count)):
+                # (a run that is CONTINUED yields its first step without having called any observer)
+                called = not (first and int(mc.step_count) > 0)
+                first = False
                 for f in files.values():
-                    f.mark_end()
+                    f.mark_end(force=called)
                 saved.append((int(mc.step_count), len(mc.atoms)))
                 for _ in st:
                     pass
@@ -154,7 +160,7 @@ def drive(mc, files, steps):
             for k in ("traj", "restart"):
                 files[k].mark_end()
     for f in files.values():
-        f.mark_end()
+        f.mark_end(force=True)
     saved.append((int(mc.step_count), len(mc.atoms)))
     return saved
 
@@ -535,13 +541,18 @@ def run(tier: str) -> int:
                     rep.sample({"mode": mode, "seed": seed, "restart_document_sizes": sizes, "log_ops_head": [o[0] for o in files["log"].ops[:10]], "restart_ops_head": [o[0] for o in files["restart"].ops[:10]]})
         # ---- further histories: a path that already holds an earlier simulation's output ('a' mode), and an observer
         # call that fails (a user-supplied log column raises once, the user carries on) --------------------------------
-        for hi, (mode, has_old, boom) in enumerate((("a", True, None), ("a", False, 4), ("w", False, 3), ("a", True, 6), ("w", False, 2))):
+        for hi, (mode, has_old, boom) in enumerate((("a", True, None), ("a", False, 4), ("w", False, 3), ("a", True, 6), ("w", False, 2), ("a", False, "drain"), ("w", False, "drain"))):
             d = os.path.join(tmp, f"hist_{hi}")
             os.makedirs(d)
             seed = rep.seed % 1000 + 301 + hi
-            mc, files = build(d, mode, seed, old=has_old, boom_at=boom)
+            drain = boom == "drain"
+            if drain:
+                boom = None
+            mc, files = build(d, mode, seed, old=has_old, boom_at=boom, drain=drain)
             try:
-                drive(mc, files, steps)
+                saved_ = drive(mc, files, steps * (3 if drain else 1))
+                if drain and not any(nat == 0 for _, nat in saved_):
+                    rep.error(f"vacuity: the draining run (mode {mode}) never had an empty box at an observer call")
             except Exception as ex:  # noqa: BLE001
                 rep.violation(f"raise:history:{'old-content' if has_old else ''}:{'failing-column' if boom else ''}:{type(ex).__name__}", f"run with {'pre-existing files ' if has_old else ''}{'a failing log column ' if boom else ''}(mode '{mode}') raised {ex!r}", {"mode": mode})
                 continue
@@ -573,6 +584,41 @@ def run(tier: str) -> int:
                         rep.error(f"vacuity: the failing column never fired (history {hi})")
                     if not added or "Step" not in added[0] or torn or not on_disk.endswith("\n"):
                         rep.violation(f"log-not-well-formed:{tag}", f"log (mode '{mode}'): the lines added by this run are not a header followed by complete rows: {('first line ' + repr(added[0][:60])) if added and 'Step' not in added[0] else ''} {('malformed row ' + repr(torn[0][:120])) if torn else ''}", {"mode": mode, "added_head": added[:3], "torn": torn[:2]})
+        # ---- the process died during its FIRST step: the run is resumed from the restart file written at step 0, into a new
+        # log file -- which gets its header and the step-0 row like any log ---------------------------------------------------
+        from ase.io.jsonio import read_json as _read_json
+
+        from quansino.mc.gcmc import GrandCanonical as _GC
+
+        for mode in ("a", "w"):
+            d = os.path.join(tmp, f"resume0_{mode}")
+            os.makedirs(d)
+            mc, files = build(d, mode, rep.seed % 1000 + 451)
+            try:
+                it = mc.irun(steps)
+                next(it)  # the step-0 observer calls have been made, the first step is about to be performed
+                for f in files.values():
+                    f.real.flush()
+                data = _read_json(os.path.join(d, "restart.out"))
+                calc = mc.atoms.calc
+                mc.close()
+                files2 = {}
+                for kind in ("log", "traj", "restart"):
+                    real = open(os.path.join(d, f"{kind}2.out"), mode + ("+" if kind == "restart" else ""))  # noqa: SIM115
+                    files2[kind] = RecFile(real)
+                new = _GC.from_dict(data, logfile=files2["log"], trajectory=files2["traj"], restart_file=files2["restart"], logging_interval=1, logging_mode=mode)
+                new.atoms.calc = Harmonic(k=calc.k, centers=calc.centers, eps=calc.eps)
+                drive(new, files2, 4)
+                new.close()
+            except Exception as ex:  # noqa: BLE001
+                rep.violation(f"raise:resume-from-step-0:{type(ex).__name__}", f"resuming from the step-0 restart file raised {ex!r} (mode '{mode}')", {"mode": mode})
+                continue
+            for kind, f in files2.items():
+                tag = kind + ":resumed-from-step-0"
+                nops += len(f.ops)
+                ncrash += analyse(rep, kind, mode, f.ops, tag)
+                recs.append(tla_trace(kind, mode, f.ops))
+                rep.count((kind, mode, "resume0"), nontrivial=True)
         # ---- the user calls the restart observer himself (a checkpoint right after the moves of a step, when the atoms
         # have changed but the step counter has not advanced yet): after EVERY observer call the file describes the latest
         # state -----------------------------------------------------------------------------------------------------------
